@@ -75,7 +75,7 @@ struct ep {
     int64_t bytes_rcv;
     int n_sent;
     /* ground truth */
-    int fault_errno, fault_reported;
+    int fault_errno, fault_reported, fault_deferrable;
     char fault_api[24];
     int conn_fault;
     int peer_end;              /* END_* of the other side as this side's kernel will see it */
@@ -211,6 +211,14 @@ int __wrap_mc_choose(int n, enum mc_kind kind, const char *label)
                 x->fault_errno = errs[alt - 1];
                 x->fault_reported = x->term_seen || x->in_close;
                 snprintf(x->fault_api, sizeof x->fault_api, "%s", api);
+                /* OpenSSL (statem_srvr.c, TLS_ST_SW_SESSION_TICKET) deliberately treats ECONNRESET/EPIPE while
+                   flushing the NewSessionTicket as success "so that we are still able to read data sent to us by
+                   a client that closes soon after the end of the handshake": a write that fails that way while
+                   xcm_receive completes the handshake is not yet a discovery; data that had arrived may still be
+                   returned, the next call that is not such a receive has to report the errno (DESIGN 6: OpenSSL
+                   is trusted) */
+                x->fault_deferrable = g_tls && !strcmp(op, "fault-send") && !strcmp(api, "xcm_receive") &&
+                                      (errs[alt - 1] == ECONNRESET || errs[alt - 1] == EPIPE);
             }
             /* the other end of a connection that died this way sees a reset */
             struct ep *p = peer_of(x);
@@ -289,6 +297,11 @@ static void after_call(struct ep *x, int call, int kind, int err)
     x->last_call = call;
 
     /* discover: an injected fault must be reported by this call */
+    if (x->fault_errno && !x->fault_reported && x->fault_deferrable && call == C_RECV && kind == K_OK && !x->term_seen) {
+        mc_info("C06/openssl-ignores-reset-at-ticket-flush", "tp=%s: a send failing with ECONNRESET/EPIPE while xcm_receive "
+                "completes the TLS handshake is swallowed by OpenSSL; xcm_receive went on to return data that had arrived", g_tp);
+        return;
+    }
     if (x->fault_errno && !x->fault_reported) {
         x->fault_reported = 1;
         own_fault_now = 1;
@@ -372,11 +385,11 @@ static void after_call(struct ep *x, int call, int kind, int err)
         }
         return;
     }
+    /* XCM's own tcp.connect_timeout: virtual time only advances while an establishment is being withheld */
+    if (kind == K_ERR && err == ETIMEDOUT && env_now_ns() - g_t0 >= 3000000000LL)
+        return;
     switch (x->peer_end) {
     case END_ALIVE:
-        /* XCM's own tcp.connect_timeout: virtual time only advances while an establishment is being withheld */
-        if (kind == K_ERR && err == ETIMEDOUT && env_now_ns() - g_t0 >= 3000000000LL)
-            break;
         /* the other endpoint has already met a terminal condition: what the library did to its descriptor
            since (tconnect closes it on a failed establishment) is not this endpoint's misreport */
         if (peer_of(x)->name && peer_of(x)->term_seen)
@@ -1236,6 +1249,8 @@ static void scenario(const char *params)
         snprintf(B->script, sizeof B->script, "%s", sb);
         B->evfd = eventfd(0, EFD_NONBLOCK);
     }
+    if (!strcmp(g_mode, "conn"))
+        B->peer_end = END_DIRTY;      /* the acceptor only exists so that the establishment can succeed */
     if (!strcmp(g_policy, "silent")) {
         env_policy_set("127.0.0.1", ENV_SILENT);
         A->conn_fault = ETIMEDOUT;
